@@ -5,7 +5,7 @@ open ParsecVerif ParsecVerif.Proto ParsecVerif.Reshape ParsecVerif.MatrixTypes
 /-!
 ops
   `prog P mb nb ld nt pt ptd nc (C ot or it ir fan shift)*`   (types: ids 0..6, -1 = none)  → `ok` | `bad-op`
-  `cfg W short`                 → `ok clean` | `ok` + tags among `trunc mixed shortmulti shortsize`
+  `cfg W short`                 → `ok clean` | `ok` + tags among `trunc mixed shortmulti shortsize packedmulti diffsets`
   `prod k`                      → `r<rank> d<type> : <footprint of what the producer received>`
   `view c k t`                  → `r<rank> d<type> s<checksum declared region> u<checksum rest> : <footprint>`
   `doc c k t`                   → the same under the documented semantics (own output type), local consumers only
@@ -49,7 +49,8 @@ def parseProg (ws : List String) : Option Prog :=
 
 def tags (p : Prog) (w : Nat) (short : Bool) : String :=
   let t := (if noTrunc p w then [] else ["trunc"]) ++ (if mixedLocal p w then ["mixed"] else []) ++
-    (if short && shortMulti p w then ["shortmulti"] else []) ++ (if short && shortSize p w then ["shortsize"] else [])
+    (if short && shortMulti p w then ["shortmulti"] else []) ++ (if short && shortSize p w then ["shortsize"] else []) ++
+    (if !short && packedMulti p w then ["packedmulti"] else []) ++ (if diffSets p w then ["diffsets"] else [])
   if t.isEmpty then "ok clean" else "ok " ++ " ".intercalate t
 
 def shapeArg (u : Nat) (d : Int) : Option Shape :=
